@@ -35,6 +35,7 @@ CONSTANTS
     CacheConf,   \* FALSE is right; TRUE: a factory made from a component constructor keeps the first decoded config
     UseDefault,  \* TRUE is right; FALSE: the registered default-config func is ignored
     MaxCalls,    \* the factory is called 1..MaxCalls times (3 in the quick tier, 4 in the thorough tier)
+    ValidateDefaults, \* TRUE is right; FALSE: a section holding only `type` is not decoded - and so the defaults are not validated
     PanicRule    \* "noerr" is right: panic iff the requested factory type has no error result; "flipped": the other way round
 
 Rets    == {"comp", "fact"}
@@ -44,10 +45,16 @@ Fails   == {"none", "ctor", "conf", "prod"}
 Nesteds == {"none", "one", "list"}
 Shapes  == {"viper", "yaml"}
 Regs    == {"synth", "real"}
+Users   == {"set", "empty"}               \* the user's settings: some options | only the plugin `type`
+DVs     == {"valid", "noreq", "minbad"}   \* what the registered default config is worth under the config's validation tags
 
 CaseSpace == [reg : Regs, ret : Rets, cfg : Cfgs, cerr : BOOLEAN, ferr : BOOLEAN, impl : BOOLEAN, dflt : BOOLEAN,
               form : Forms, fail : Fails, failAt : 1..MaxCalls, calls : 1..MaxCalls, nested : Nesteds, shape : Shapes,
-              mutate : BOOLEAN]
+              mutate : BOOLEAN, user : Users, dv : DVs]
+
+\* The config struct carries validation tags (R: required, M: min=1).  The user's settings, when given, are valid; so the
+\* configuration a component would be built from is INVALID exactly when the user gives nothing and the defaults are not valid.
+InvalidConf(c) == c.cfg # "none" /\ c.user = "empty" /\ ~(c.dflt /\ c.dv = "valid")
 
 \* which combinations exist (the others are normalised away or cannot be registered / injected)
 ValidSynth(c) ==
@@ -60,14 +67,23 @@ ValidSynth(c) ==
     /\ (c.fail \in {"none", "conf"} => c.failAt = 1)
     /\ (c.fail = "ctor" => c.cerr /\ (c.ret = "fact" => c.failAt = 1))
     /\ (c.fail = "prod" => c.ret = "fact" /\ c.ferr)
+    \* user settings / default variants (normalised: no config => nothing to set or to validate)
+    /\ (c.cfg = "none" => c.user = "empty" /\ c.dv = "valid")
+    /\ (c.dv # "valid" => c.dflt /\ c.nested = "none" /\ c.fail = "none" /\ ~c.mutate)
+    /\ (c.user = "empty" /\ c.cfg # "none" => c.nested = "none" /\ c.fail # "conf" /\ ~c.mutate)
+    /\ (InvalidConf(c) => c.fail = "none")
 
 \* the real registry: `rps` of a pool (a func() (core.Schedule, error) field) given as a list (-> composite of
 \* real `once` schedules) or as an explicit composite; schedule constructors take a struct, return core.Schedule
 ValidReal(c) ==
-    /\ c.reg = "real"
-    /\ c.ret = "comp" /\ c.cfg = "struct" /\ ~c.cerr /\ ~c.ferr /\ ~c.impl /\ ~c.dflt
-    /\ c.form = "FactoryErr" /\ c.fail = "none" /\ c.failAt = 1 /\ ~c.mutate
-    /\ c.nested \in {"one", "list"}
+    /\ c.reg = "real" /\ c.cfg = "struct" /\ ~c.cerr /\ ~c.ferr /\ ~c.impl
+    /\ c.fail = "none" /\ c.failAt = 1 /\ ~c.mutate
+    /\ \/ /\ c.ret = "comp" /\ ~c.dflt /\ c.form = "FactoryErr" /\ c.nested \in {"one", "list"} /\ c.user = "set" /\ c.dv = "valid"
+       \* sections holding only `type`, real entries: startup {type: once} (times 0 violates min=1), rps {type: const}
+       \* (duration 0 violates min-time), gun {type: http} (factory constructor, default config without the required target)
+       \/ /\ c.ret = "comp" /\ ~c.dflt /\ c.form \in {"New", "FactoryErr"} /\ c.nested = "none" /\ c.user = "empty" /\ c.dv = "valid"
+          /\ (c.form = "New" => c.calls = 1)
+       \/ /\ c.ret = "fact" /\ c.dflt /\ c.dv = "noreq" /\ c.form = "FactoryErr" /\ c.nested = "none" /\ c.user = "empty"
 
 Valid(c) == ValidSynth(c) \/ ValidReal(c)
 Cases == {c \in CaseSpace : Valid(c)}
@@ -77,18 +93,28 @@ Cases == {c \in CaseSpace : Valid(c)}
 UserA == 5          \* user sets a: 5   (default 7)
 DfltB == "d"        \* user does not set b (default "d")
 UserC == "u"        \* user sets c: "u" (no default)
+UserR == "ur"       \* user sets r: "ur" (required; valid default "r")
+UserM == 2          \* user sets m: 2   (min=1; valid default 1)
 MutA  == 99         \* what the driver writes into product k's config before asking for product k+1
 
 NestedCount(c) == CASE c.nested = "none" -> 0 [] c.nested = "one" -> 1 [] c.nested = "list" -> 2
 
-NoProd == [out |-> "none", perr |-> FALSE, a |-> 0, b |-> "", c |-> "", n |-> 0, fresh |-> FALSE]
+NoProd == [out |-> "none", perr |-> FALSE, a |-> 0, b |-> "", c |-> "", r |-> "", m |-> 0, n |-> 0, fresh |-> FALSE]
 Failed(out, perr) == [NoProd EXCEPT !.out = out, !.perr = perr]
 
 \* what a product built from a freshly created, freshly decoded config sees
-ConfB(c) == IF c.dflt /\ UseDefault THEN DfltB ELSE ""
+HasDflt(c) == c.dflt /\ UseDefault
+ConfB(c) == IF HasDflt(c) THEN DfltB ELSE ""
+ValA(c) == IF c.user = "set" THEN UserA ELSE IF HasDflt(c) THEN 7 ELSE 0
+ValC(c) == IF c.user = "set" THEN UserC ELSE ""
+ValR(c) == IF c.user = "set" THEN UserR ELSE IF HasDflt(c) /\ c.dv # "noreq" THEN "r" ELSE ""
+ValM(c) == IF c.user = "set" THEN UserM ELSE IF HasDflt(c) /\ c.dv # "minbad" THEN 1 ELSE 0
+\* the validation tags on defaults (+) settings
+ConfValid(c) == ValR(c) # "" /\ ValM(c) >= 1
 Seen(c, a, fresh) ==
     IF c.cfg = "none" THEN [NoProd EXCEPT !.out = "ok", !.fresh = TRUE]
-    ELSE [out |-> "ok", perr |-> FALSE, a |-> a, b |-> ConfB(c), c |-> UserC, n |-> NestedCount(c), fresh |-> fresh]
+    ELSE [out |-> "ok", perr |-> FALSE, a |-> a, b |-> ConfB(c), c |-> ValC(c), r |-> ValR(c), m |-> ValM(c),
+          n |-> NestedCount(c), fresh |-> fresh]
 
 St0 == [created |-> "none",
         nested_type |-> TRUE,    \* the nested plugin maps inside the USER's map still carry their `type` key
@@ -103,10 +129,12 @@ St0 == [created |-> "none",
 \* defaultConfigContainer.Get(fillConf): new config, decode the user's map into it.
 \* Returns <<state', ok>>
 GetConf(c, st) ==
-    LET ok == /\ c.fail # "conf"
+    LET typeonly == c.user = "empty" /\ ~ValidateDefaults      \* nil fillConf: nothing decoded, nothing validated
+        ok == /\ c.fail # "conf"
               /\ (c.nested # "none" => st.nested_type)
+              /\ (typeonly \/ ConfValid(c))
         eats == c.nested # "none" /\ c.shape = "viper" /\ ~CopyMap   \* parseConf deletes `type` from the caller's nested map
-    IN <<[st EXCEPT !.nd = @ + 1,
+    IN <<[st EXCEPT !.nd = IF c.user = "set" THEN @ + 1 ELSE @,      \* (observed through a field the user's settings carry)
                     !.ndflt = IF c.dflt /\ UseDefault THEN @ + 1 ELSE @,
                     !.nested_type = IF eats THEN FALSE ELSE @], ok>>
 
@@ -126,10 +154,10 @@ CreateStep(c, st) ==
         IN IF ~g[2] THEN [s1 EXCEPT !.created = "error"]
            ELSE LET s2 == [s1 EXCEPT !.nctor = @ + 1]
                 IN IF c.fail = "ctor" THEN [s2 EXCEPT !.created = "error"]
-                   ELSE IF c.ret = "comp" THEN Push([s2 EXCEPT !.created = "ok"], Seen(c, UserA, TRUE))
+                   ELSE IF c.ret = "comp" THEN Push([s2 EXCEPT !.created = "ok"], Seen(c, ValA(c), TRUE))
                    ELSE LET s3 == [s2 EXCEPT !.nfact = @ + 1]
                         IN IF c.fail = "prod" THEN [s3 EXCEPT !.created = "error"]
-                           ELSE Push([s3 EXCEPT !.created = "ok"], Seen(c, UserA, TRUE))
+                           ELSE Push([s3 EXCEPT !.created = "ok"], Seen(c, ValA(c), TRUE))
     ELSE IF c.ret = "comp" THEN
         \* config is created lazily, per product; with no config the user's map is only checked against struct{}
         IF c.cfg = "none" /\ c.fail = "conf" THEN [st EXCEPT !.created = "error"] ELSE [st EXCEPT !.created = "ok"]
@@ -147,7 +175,7 @@ CallStep(c, st, k) ==
         LET s1 == [st EXCEPT !.nfact = @ + 1]
         IN IF c.fail = "prod" /\ c.failAt = k THEN Push(s1, CallFailure(c))
            ELSE \* all products see THE config decoded at creation (the same pointer: fresh only the first time it is seen)
-                Push(s1, Seen(c, UserA, c.cfg # "ptr" \/ ~\E i \in 1..Len(st.prods) : st.prods[i].out = "ok"))
+                Push(s1, Seen(c, ValA(c), c.cfg # "ptr" \/ ~\E i \in 1..Len(st.prods) : st.prods[i].out = "ok"))
     ELSE
         LET reuse == CacheConf /\ st.cached /\ c.cfg # "none"
             g  == IF c.cfg = "none" \/ reuse THEN <<st, TRUE>> ELSE GetConf(c, st)
@@ -155,7 +183,7 @@ CallStep(c, st, k) ==
         IN IF ~g[2] THEN Push(s1, CallFailure(c))
            ELSE LET s2 == [s1 EXCEPT !.nctor = @ + 1, !.cached = TRUE]
                 IN IF c.fail = "ctor" /\ c.failAt = s2.nctor THEN Push(s2, CallFailure(c))
-                   ELSE Push(s2, Seen(c, IF reuse /\ st.dirty /\ c.cfg = "ptr" THEN MutA ELSE UserA, ~reuse \/ c.cfg # "ptr"))
+                   ELSE Push(s2, Seen(c, IF reuse /\ st.dirty /\ c.cfg = "ptr" THEN MutA ELSE ValA(c), ~reuse \/ c.cfg # "ptr"))
 
 \* the driver writes MutA into the config held by the last product (if there is one)
 MutateStep(c, st) ==
@@ -205,15 +233,21 @@ TypeOK == /\ st.created \in {"none", "ok", "error"}
 
 \* every component is configured with the registered defaults overlaid by the user's settings
 ConfigRight == \A p \in Prods : Ok(p) /\ cs.cfg # "none" =>
-                  /\ p.a = UserA /\ p.c = UserC
+                  /\ (cs.user = "set" => p.a = UserA /\ p.c = UserC /\ p.r = UserR /\ p.m = UserM)
+                  /\ (cs.user = "empty" => /\ p.a = (IF cs.dflt THEN 7 ELSE 0) /\ p.c = ""
+                                           /\ p.r = "r" /\ p.m = 1)      \* only VALID defaults can be seen by a product
                   /\ p.b = (IF cs.dflt THEN DfltB ELSE "")
                   /\ p.n = NestedCount(cs)
 
 \* nothing fails unless a failure was injected - in particular the 2nd, 3rd product of a factory
-NoSpuriousFailure == cs.fail = "none" => st.created # "error" /\ \A p \in Prods : Ok(p)
+NoSpuriousFailure == cs.fail = "none" /\ ~InvalidConf(cs) => st.created # "error" /\ \A p \in Prods : Ok(p)
 
 \* an injected failure reaches the caller: at creation, or at the call it strikes
 FailureReaches ==
+    \* ... and so does a configuration (defaults (+) settings) that violates its validation tags, also when the user gave
+    \* nothing but the plugin type: no product is ever built from invalid defaults
+    /\ (InvalidConf(cs) /\ phase # "create" =>
+            st.created = "error" \/ (Len(st.prods) = k /\ \A p \in Prods : ~Ok(p)))
     /\ (cs.fail = "conf" /\ phase # "create" =>
             st.created = "error" \/ (Len(st.prods) = k /\ \A p \in Prods : ~Ok(p)))
     /\ (cs.fail \in {"ctor", "prod"} /\ phase = "done" =>
@@ -227,12 +261,12 @@ PanicRuleInv == \A p \in Prods :
 \* factory made from a COMPONENT constructor: every product from a freshly created and freshly decoded config
 FreshPerProduct == cs.ret = "comp" /\ cs.form # "New" /\ cs.cfg # "none" =>
                       /\ \A p \in Prods : Ok(p) => p.fresh
-                      /\ st.nd = Attempts
+                      /\ (cs.user = "set" => st.nd = Attempts)
                       /\ (cs.dflt => st.ndflt = Attempts)
 
 \* factory made from a FACTORY constructor: config decoded once, constructor called once, registered factory once per product
 OncePerFactory == cs.ret = "fact" /\ cs.form # "New" /\ st.created = "ok" =>
-                      /\ (cs.cfg # "none" => st.nd = 1)
+                      /\ (cs.cfg # "none" /\ cs.user = "set" => st.nd = 1)
                       /\ st.nctor = 1
                       /\ st.nfact = k
 
